@@ -210,6 +210,7 @@ class C18(FsProp):
         for k, c in enumerate(out):
             if c["cmd"] != "rename":
                 c["cwd_mode"] = "elsewhere" if k % 3 == 0 else "metadir"
+            c["clutter"] = (k % 4) in (1, 2)
         if tier != "thorough":
             out = [c for k, c in enumerate(out) if c["cmd"] in ("rename", "info") or k % 2 == 0
                    or (c.get("pre") == ["-v"] and c.get("damage"))      # verbose runs on damaged content are always kept
@@ -237,7 +238,7 @@ class C18(FsProp):
     def nontrivial(self, case):
         return (case["cmd"], case.get("spelling"), case["version"], case["tree"]["name"], str(case.get("damage")),
                 case.get("outform"), case.get("preexisting"), case.get("target_exists"), str(case.get("pre")),
-                case.get("mver"), case.get("path_mode"), case.get("cwd_mode"), case.get("decoy_in_cwd"))
+                case.get("mver"), case.get("path_mode"), case.get("cwd_mode"), case.get("decoy_in_cwd"), case.get("clutter"))
 
     def signature(self, case, rec, clause):
         return "%s/%s" % (clause, case["cmd"] if case else "?")
